@@ -805,13 +805,9 @@ impl<'de> VariantAccess<'de> for VariantDeserializer {
 		V: serde::de::Visitor<'de>,
 	{
 		match self.value {
-			Some(Value::Array(v)) => {
-				if v.is_empty() {
-					visitor.visit_unit()
-				} else {
-					visit_array(v, visitor)
-				}
-			}
+			// An empty array is an empty sequence: a tuple variant without fields
+			// (`V()`) serializes to `{"V":[]}` and its visitor only accepts `visit_seq`.
+			Some(Value::Array(v)) => visit_array(v, visitor),
 			Some(other) => Err(serde::de::Error::invalid_type(
 				other.unexpected(),
 				&"tuple variant",
